@@ -10,7 +10,7 @@ from hypothesis import strategies as st
 from vlib import gen
 from vlib import ref_c16 as R
 from vlib.case import hash_noise, smooth_field, tdtype
-from vlib.core import EPS32, Facet, Skip, Violation, check_close, eps_of
+from vlib.core import EPS32, Facet, Violation, check_close, eps_of
 from vlib.findings import Known
 
 PROPERTY = "C16"
@@ -79,16 +79,16 @@ def mask_shape(kind, shp):
     return {"11": (1, 1) + sp, "N1": (N, 1) + sp, "NC": (N, C) + sp, "1C": (1, C) + sp, "N": (N,) + sp}[kind]
 
 
-def make_mask(desc, shp):
-    """Mask array from descriptor {'kind','soft','key','p'}; at least one non-zero element by construction."""
+def make_mask(desc, shp, anchor=0):
+    """Mask array from descriptor {'kind','soft','key','p'}.  By construction every item / channel of every mask of a
+    case is non-zero at one common spatial position (`anchor`), so no mask - and no product of masks - is empty."""
     if desc is None:
         return None
     ms = mask_shape(desc["kind"], shp)
     u = hash_noise(ms, desc["key"], 0.0, 1.0)
     m = (u < desc["p"]).astype(np.float64)
-    per = m[0].size
-    for i in range(ms[0]):  # every batch item of the mask keeps at least one sample
-        m[i].reshape(-1)[(desc["key"] + i) % per] = 1.0
+    nsp = int(np.prod(shp[2:]))
+    m.reshape(-1, nsp)[:, anchor % nsp] = 1.0
     if desc.get("soft"):
         m = m * np.round(0.05 + 0.95 * hash_noise(ms, desc["key"] + 31, 0.0, 1.0), 3)
     return m
@@ -137,12 +137,13 @@ def check_elem(actual, expected, bound, kind, what):
     return r
 
 
-def images_base(draw, max2, max3, min_size=1, max_n=3, max_c=3):
-    D = draw(gen.dims())
+def images_base(draw, max2, max3, min_size=1, max_n=3, max_c=3, D=None, min_sizes=None):
+    D = draw(gen.dims()) if D is None else D
     hi = max2 if D == 2 else max3
+    lows = [min_size] * D if min_sizes is None else list(min_sizes)
     return {
         "D": D,
-        "shape": draw(st.lists(st.integers(min_size, hi), min_size=D, max_size=D)),
+        "shape": [draw(st.integers(lo, max(lo, hi))) for lo in lows],
         "N": draw(st.integers(1, max_n)),
         "C": draw(st.integers(1, max_c)),
         "key": draw(st.integers(0, 10 ** 6)),
@@ -165,7 +166,7 @@ def pointwise_cases(draw):
     case["loss"] = draw(st.sampled_from(POINTWISE))
     case["param"] = draw(st.one_of(st.none(), gen.qfloat(0.05, 3.0, 0.05))) if case["loss"] in PARAM_NAME else None
     case["dtype"] = draw(gen.dtypes())
-    case["mask"] = draw(st.one_of(st.none(), mask_desc(("11", "N1", "NC", "1C")), mask_desc(("11", "N1", "NC", "1C"))))
+    case["mask"] = draw(st.one_of(st.none(), *[mask_desc(("11", "N1", "NC", "1C"))] * 3))
     case["norm"] = draw(st.one_of(st.none(), gen.logfloat(0.01, 1000.0)))
     case["norm_form"] = draw(st.sampled_from(["float", "tensor0", "tensor1"]))
     case["big"] = draw(st.sampled_from([1.0, 100.0, -1000.0]))
@@ -187,7 +188,7 @@ def run_pointwise(case):
     x64, y64 = make_pair(case)
     x, y = T(x64, dt), T(y64, dt)
     xr, yr = as64(x), as64(y)  # the values deepali actually receives
-    m = T(make_mask(case["mask"], shp), dt)
+    m = T(make_mask(case["mask"], shp, case["key"]), dt)
     m64 = None if m is None else as64(m)
     kw = {}
     param = 1.0
@@ -311,7 +312,8 @@ def corr_ref(loss, xr, yr, k, eps, m64s):
     if loss == "lcc":
         l, B, C, nw = R.lcc(xr, yr, k, e)
         return l, B, C, nw, m64s.get("mask"), chan_max(xr), chan_max(yr)
-    l, B, C, nw, agg = R.wlcc(xr, yr, k, e, m64s.get("mask"), m64s.get("source_mask"), m64s.get("target_mask"))
+    l, B, C, nw, agg, undefined = R.wlcc(xr, yr, k, e, m64s.get("mask"), m64s.get("source_mask"), m64s.get("target_mask"))
+    B = np.where(undefined, 0.0, B)  # -> infinite bound: windows with an unsupported weighted mean are not compared
     return l, B, C, nw, agg, chan_max(xr), chan_max(yr)
 
 
@@ -328,7 +330,7 @@ def corr_inputs(case):
     for key in ("mask", "source_mask", "target_mask"):
         d = case.get(key)
         if d is not None:
-            ms[key] = T(make_mask(d, shp), dt)
+            ms[key] = T(make_mask(d, shp, case["key"]), dt)
             m64s[key] = f32(ms[key])
     return x, y, m64s, ms
 
@@ -366,14 +368,19 @@ def corr_mask_strategy(draw, loss):
     return out
 
 
-def kernel_strategy(draw, D, allow_aniso):
-    k = draw(st.sampled_from([3, 3, 5, 7, 9]))
+def kernel_strategy(draw, D, hi, allow_aniso):
+    """Odd kernel sizes 3-9 (<= hi); returns (kernel, per-axis minimum image size).  The image is generated at least
+    as large as the kernel: torch's 3-D average pooling rejects smaller images even with padding (implicit
+    precondition of lcc/wlcc, constructed rather than filtered)."""
+    ok = [v for v in (3, 3, 5, 7, 9) if v <= hi]
+    k = draw(st.sampled_from(ok))
     form = draw(st.sampled_from(["int", "int", "tuple"] + (["aniso"] if allow_aniso else [])))
     if form == "int":
-        return k
+        return k, [k] * D
     if form == "tuple":
-        return [k] * D
-    return [draw(st.sampled_from([3, 5, 7])) for _ in range(D)]
+        return [k] * D, [k] * D
+    ks = [draw(st.sampled_from([v for v in (3, 5, 7) if v <= hi])) for _ in range(D)]
+    return ks, ks
 
 
 # ---------------------------------------------------------------------------------------
@@ -382,11 +389,13 @@ def kernel_strategy(draw, D, allow_aniso):
 
 @st.composite
 def corr_reference_cases(draw):
-    case = images_base(draw, 12, 8, min_size=2)
+    D = draw(gen.dims())
+    k, lows = kernel_strategy(draw, D, 12 if D == 2 else 8, allow_aniso=False)
+    case = images_base(draw, 12, 8, D=D, min_sizes=lows)
+    case["k"] = k
     case["loss"] = draw(st.sampled_from(["ncc", "lcc", "lcc", "wlcc", "wlcc"]))
     case["content"] = draw(st.sampled_from(["noise", "noise", "mix"]))
     case["dtype"] = draw(gen.dtypes())
-    case["k"] = kernel_strategy(draw, case["D"], allow_aniso=False)
     case["eps"] = draw(st.sampled_from([None, None, 1e-15, 1e-8, 1e-3]))
     case.update(corr_mask_strategy(draw, case["loss"]))
     return case
@@ -461,11 +470,13 @@ def run_corr_reference(case):
 
 @st.composite
 def corr_axiom_cases(draw):
-    case = images_base(draw, 20, 10, min_size=3)
+    D = draw(gen.dims())
+    k, lows = kernel_strategy(draw, D, 20 if D == 2 else 10, allow_aniso=True)
+    case = images_base(draw, 20, 10, D=D, min_sizes=lows)
+    case["k"] = k
     case["loss"] = draw(st.sampled_from(["ncc", "ncc", "lcc", "lcc", "wlcc"]))
     case["content"] = draw(st.sampled_from(["noise", "noise", "mix"]))
     case["dtype"] = draw(gen.dtypes())
-    case["k"] = kernel_strategy(draw, case["D"], allow_aniso=True)
     case["eps"] = draw(st.sampled_from([None, None, None, 1e-12]))
     case.update(corr_mask_strategy(draw, case["loss"]))
     sign = draw(st.sampled_from([1.0, 1.0, -1.0]))
@@ -488,12 +499,15 @@ def run_corr_axioms(case):
 
     def bounds(xa, ya):
         s = corr_ref(loss, xa, ya, k, eps, m64s)
-        return corr_bound(s[5], s[6], s[1], s[2], s[3]), eps_term(s[1], s[2], e), s[4]
+        bc = s[1] * s[2]
+        with np.errstate(divide="ignore", invalid="ignore"):
+            rho2 = np.where(bc > 0, (1.0 - s[0]) * (bc + e) / np.where(bc > 0, bc, 1.0), 0.0)  # scale-free squared correlation
+        return corr_bound(s[5], s[6], s[1], s[2], s[3]), eps_term(s[1], s[2], e), s[4], rho2
 
     if loss == "ncc" and ms.get("mask") is not None:
         corr_eval(loss, x, y, k, eps, ms, "none")  # K6: raises ncc_mask_rejected on the pinned tree
         return {"nontrivial": False, "labels": ["ncc", "masked"]}
-    bxy, exy, agg = bounds(xr, yr)
+    bxy, exy, agg, rho2 = bounds(xr, yr)
     mb = None if agg is None else np.broadcast_to(agg, bxy.shape)
     wm = 1.0 if mb is None else mb
 
@@ -532,27 +546,33 @@ def run_corr_axioms(case):
     agg_id = sx[4]
     mbi = None if agg_id is None else np.broadcast_to(agg_id, bxx.shape)
     o_xx = corr_eval(loss, x, x, k, eps, ms_id, "none")
-    bid = bxx + exx
+    # expected: the documented epsilon regulariser leaves epsilon / (B^2 + epsilon) (B in float32: relative slack 1e-3)
+    bid = bxx + 1e-3 * exx
+    wid = 1.0 if mbi is None else mbi
     bid = bid if mbi is None else np.where(mbi > 0, bid * np.maximum(mbi, 1e-300), 1e-30)
-    worst = max(worst, check_elem(o_xx, np.zeros_like(bxx), bid, "corr_identity", f"{loss}_loss(x, x) != 0"))
+    worst = max(worst, check_elem(o_xx, exx * wid, bid, "corr_identity", f"{loss}_loss(x, x) != 0 (+ epsilon / (B^2 + epsilon))"))
     if np.isfinite(bid).all():
         o_mean = corr_eval(loss, x, x, k, eps, ms_id, "mean")
         den = float(bxx.size if mbi is None else mbi.sum())
-        worst = max(worst, check_close(o_mean, 0.0, float(bid.sum()) / den * (1 + 1e-3) + 1e-300, "corr_identity", f"{loss}_loss(x, x) 'mean' != 0"))
+        worst = max(worst, check_close(o_mean, float((exx * wid).sum()) / den, float(bid.sum()) / den + 256 * EPS32 * float((exx * wid).sum()) / den + 1e-300,
+                                       "corr_identity", f"{loss}_loss(x, x) 'mean' != 0"))
     # invariance under intensity scale and offset a*x + b, a != 0
     a, b = case["a"], case["b"]
     x2 = T(a * as64(x) + b, dt) if case["which"] in ("source", "both") else x
     y2 = T(a * as64(y) + b, dt) if case["which"] in ("target", "both") else y
-    b2, e2, _ = bounds(f32(x2), f32(y2))
+    b2, e2, _, _ = bounds(f32(x2), f32(y2))
     o2 = corr_eval(loss, x2, y2, k, eps, ms, "none")
-    binv = wb(bxy + b2 + exy + e2)
-    worst = max(worst, check_elem(o2, n_xy, binv, "corr_affine_invariance",
+    # loss = 1 - rho^2 (1 - t), t = epsilon / (B C + epsilon): rho^2 is invariant, the documented regulariser term t is
+    # not (B C scales with a^2); its known change rho^2 (t' - t) is accounted for exactly (relative slack 1e-3 on t, t')
+    shift = rho2 * (e2 - exy) * wm
+    binv = wb(bxy + b2 + 1e-3 * (exy + e2))
+    worst = max(worst, check_elem(o2, n_xy + shift, binv, "corr_affine_invariance",
                                   f"{loss}_loss changed under intensity map {a}*x+{b} of {case['which']}"))
     if np.isfinite(binv).all():
         den = float(bxy.size if mb is None else mb.sum())
         m1 = corr_eval(loss, x, y, k, eps, ms, "mean")
         m2 = corr_eval(loss, x2, y2, k, eps, ms, "mean")
-        worst = max(worst, check_close(m2, as64(m1), float(binv.sum()) / den + 256 * EPS32, "corr_affine_invariance",
+        worst = max(worst, check_close(m2, as64(m1) + float(np.sum(shift)) / den, float(binv.sum()) / den + 256 * EPS32, "corr_affine_invariance",
                                        f"{loss}_loss 'mean' changed under intensity map {a}*x+{b} of {case['which']}"))
     else:
         labels.append("ill_conditioned_windows")
@@ -568,14 +588,15 @@ def run_corr_axioms(case):
 def mi_cases(draw):
     D = draw(gen.dims())
     shape = draw(st.lists(st.integers(4, 14) if D == 2 else st.integers(3, 6), min_size=D, max_size=D))
-    mode = draw(st.sampled_from(["generic", "generic", "levels"]))
+    mode = draw(st.sampled_from(["generic", "levels"]))
     bins = draw(st.integers(13, 64) if mode == "levels" else st.integers(8, 64))
     vmin = draw(st.sampled_from([0.0, 0.0, -1.0, 10.0]))
     case = {
         "D": D, "shape": shape, "N": draw(st.integers(1, 3)), "C": 1, "key": draw(st.integers(0, 10 ** 6)),
         "bins": bins, "vmin": vmin, "vmax": vmin + draw(st.sampled_from([1.0, 1.0, 16.0, 255.0])),
         "dtype": draw(gen.dtypes()), "mode": mode,
-        "mask": draw(st.one_of(st.none(), st.none(), mask_desc(("11", "N1")))),
+        # binary region-of-interest masks only: mi_loss multiplies the intensities by the mask, which has no documented meaning for soft weights
+        "mask": draw(st.one_of(st.none(), mask_desc(("11", "N1"), soft=False))),
         "fill": draw(st.sampled_from([1.0, 1.0, 0.6])),  # fraction of [vmin, vmax] covered by the data (generic mode)
         "rel": draw(st.sampled_from([0.0, 0.5, 0.9])),
     }
@@ -613,7 +634,7 @@ def run_mi(case):
     x64, y64 = mi_images(case)
     x, y = T(x64, dt), T(y64, dt)
     shp = full_shape(case)
-    m = T(make_mask(case["mask"], shp), dt)
+    m = T(make_mask(case["mask"], shp, case["key"]), dt)
     bins = case["bins"]
     n = int(np.prod(case["shape"]))
     kw = dict(vmin=case["vmin"], vmax=case["vmax"], num_bins=bins)
@@ -694,6 +715,14 @@ def overlap_maps(case):
     return a, b, lab
 
 
+def accepted(kind, what, fn, *args, **kw):
+    """Call a deepali function with arguments of a documented form; a ValueError/TypeError rejection is the violation `kind`."""
+    try:
+        return fn(*args, **kw)
+    except (ValueError, TypeError) as e:
+        raise Violation(kind, f"{what} raised {type(e).__name__}: {str(e)[:160]}")
+
+
 def run_overlap(case):
     import deepali.losses.functional as L
 
@@ -703,7 +732,7 @@ def run_overlap(case):
     a, b = T(a64, dt), T(b64, dt)
     ar, br = f32(a), f32(b)
     wd = case["weight"]
-    w = T(make_mask(wd, shp), dt)
+    w = T(make_mask(wd, shp, case["key"]), dt)
     w64 = None if w is None else f32(w)
     wref = None if w64 is None else (w64[:, None] if wd["kind"] == "N" else w64)
     w_dice = None if w is None else (w.unsqueeze(1) if wd["kind"] == "N" else w)
@@ -750,7 +779,9 @@ def run_overlap(case):
         tkw["alpha"] = alpha
     if beta is not None:
         tkw["beta"] = beta
-    t_ab = L.tversky_index(a, b, weight=w, reduction="none", **tkw)   # F26: 1-channel weight with 1-channel prediction
+    # F26: a 1-channel weight with a 1-channel prediction is rejected
+    t_ab = accepted("tversky_weight_rejected", f"tversky_index(input {tuple(a.shape)}, target {tuple(b.shape)}, weight {None if w is None else tuple(w.shape)})",
+                    L.tversky_index, a, b, weight=w, reduction="none", **tkw)
     if tuple(t_ab.shape) != NC:
         raise Violation("tversky_none_shape", f"tversky_index(reduction='none') shape {tuple(t_ab.shape)} != (N, C) = {NC}")
     t64 = as64(t_ab)
@@ -771,13 +802,24 @@ def run_overlap(case):
         worst = max(worst, check_close(t_half, d64, tol_d, "tversky_half_is_dice", "tversky_index(alpha=beta=1/2) != dice_score on binary inputs"))
         t_def = L.tversky_index(a, b, weight=w, reduction="none", **kw)
         worst = max(worst, check_close(t_def, d64, tol_d, "tversky_half_is_dice", "tversky_index(default alpha, beta) != dice_score on binary inputs"))
+    differ = bool((ar != br).any())
+
+    def result():
+        return {"ratio": worst, "nontrivial": differ and shp[0] >= 2,
+                "labels": ["binary" if binary else "soft", f"C={shp[1]}", f"N={shp[0]}", f"D={case['D']}", "weight=" + (wd["kind"] if wd else "none"),
+                           "gamma" if case["gamma"] and case["gamma"] > 1 else "nogamma", case["target_form"], "a=b" if al == be else "a!=b", red]}
+
+    # regression witnesses may carry 'upto' to stop after the section they are about (never generated)
+    if case.get("upto") == "index":
+        return result()
     # ---- documented target forms: label map (N, ..., X)
     if case["target_form"] == "labels" and lab is not None:
-        if case["C"] == 1:
-            t_lab = L.tversky_index(a, torch.tensor(lab, dtype=dt), weight=w, reduction="none", **tkw)
-        else:
-            t_lab = L.tversky_index(a, torch.tensor(lab), weight=w, reduction="none", **tkw)
+        lab_t = torch.tensor(lab, dtype=dt) if case["C"] == 1 else torch.tensor(lab)
+        t_lab = accepted("tversky_label_map_target_rejected", f"tversky_index(input {tuple(a.shape)}, target labels {tuple(lab_t.shape)} {lab_t.dtype})",
+                         L.tversky_index, a, lab_t, weight=w, reduction="none", **tkw)
         worst = max(worst, check_close(t_lab, t64, tol, "tversky_label_map_target", "tversky_index with a label map target (N, ..., X) != one-hot target"))
+    if case.get("upto") == "labels":
+        return result()
     # ---- Tversky loss = 1 - index, focal exponent
     gamma = case["gamma"]
     lkw = dict(tkw)
@@ -785,14 +827,12 @@ def run_overlap(case):
         lkw["gamma"] = gamma
     g = 1.0 if gamma is None else gamma
     exp_none = np.clip(1 - t64, 0.0, None) ** g
-    tl = L.tversky_loss(a, b, weight=w, reduction="none", **lkw)      # F11: gamma passed on to tversky_index
+    # F11: gamma is passed on to tversky_index, which does not take it
+    tl = accepted("tversky_loss_raises", f"tversky_loss(gamma={gamma})", L.tversky_loss, a, b, weight=w, reduction="none", **lkw)
     worst = max(worst, check_close(tl, exp_none, tol * max(1.0, g), "tversky_loss_is_one_minus_index", f"tversky_loss(gamma={gamma}) != (1 - tversky_index)^gamma"))
     worst = max(worst, check_close(L.tversky_loss(a, b, weight=w, reduction=red, **lkw), R.reduce_plain(exp_none, red), tol * max(1.0, g) * max(1.0, t64.size if red == "sum" else 1),
                                    "tversky_reduction", f"tversky_loss reduction {red!r}"))
-    differ = bool((ar != br).any())
-    return {"ratio": worst, "nontrivial": differ and shp[0] >= 2,
-            "labels": ["binary" if binary else "soft", f"C={shp[1]}", f"N={shp[0]}", f"D={case['D']}", "weight=" + (wd["kind"] if wd else "none"),
-                       "gamma" if gamma and gamma > 1 else "nogamma", case["target_form"], "a=b" if al == be else "a!=b", red]}
+    return result()
 
 
 # ---------------------------------------------------------------------------------------
@@ -806,14 +846,19 @@ MODULES = ("MSE", "L2ImageLoss", "SSD", "MAE", "L1ImageLoss", "HuberImageLoss", 
 def module_cases(draw):
     cls = draw(st.sampled_from(MODULES))
     mi = cls in ("MI", "NMI")
-    case = images_base(draw, 12, 6, min_size=3 if mi else 2, max_c=1 if mi else 3)
+    D = draw(gen.dims())
+    ksz = None
+    if cls in ("LCC", "LNCC", "WLCC", "SLCC"):
+        ksz = draw(st.sampled_from([None, 3, 5, 7, 9] if D == 2 else [None, 3, 5, 7]))  # None = default kernel size 7
+    low = 3 if ksz is None and cls not in ("LCC", "LNCC", "WLCC", "SLCC") else (7 if ksz is None else ksz)
+    case = images_base(draw, 12, 8, D=D, min_sizes=[low] * D, max_c=1 if mi else 3)
     case["cls"] = cls
     case["dtype"] = draw(gen.dtypes())
     case["content"] = "noise"
     kinds = ("11", "N1") if mi else ("11", "N1", "NC")
     if cls in ("Dice", "DSC"):
         kinds = ("N1", "NC")
-    case["mask"] = draw(st.one_of(st.none(), mask_desc(kinds)))
+    case["mask"] = draw(st.one_of(st.none(), mask_desc(kinds, soft=not mi)))
     if cls == "NCC" and k6_active():
         case["mask"] = None
     opts = {}
@@ -826,7 +871,7 @@ def module_cases(draw):
     elif cls in ("NCC", "LCC", "LNCC", "WLCC", "SLCC", "Dice", "DSC"):
         opts["epsilon"] = draw(st.sampled_from([None, 1e-15, 1e-4, 1e-2, 1.0]))
         if cls not in ("NCC", "Dice", "DSC"):
-            opts["kernel_size"] = draw(st.sampled_from([None, 3, 5, [3] * case["D"], 9]))
+            opts["kernel_size"] = [ksz] * D if ksz is not None and draw(st.booleans()) else ksz
         if cls in ("WLCC", "SLCC"):
             opts["source_mask"] = draw(st.one_of(st.none(), mask_desc(("11", "N1", "NC"))))
             opts["target_mask"] = draw(st.one_of(st.none(), mask_desc(("11", "N1", "NC"))))
@@ -851,7 +896,7 @@ def run_modules(case):
     if cls in ("Dice", "DSC"):
         x64, y64 = (x64 > np.median(x64)).astype(np.float64), (y64 > np.median(y64)).astype(np.float64)
     x, y = T(x64, dt), T(y64, dt)
-    m = T(make_mask(case["mask"], shp), dt)
+    m = T(make_mask(case["mask"], shp, case["key"]), dt)
     ctor = getattr(LM, cls)
     labels = [cls, case["dtype"], "mask=" + (case["mask"]["kind"] if case["mask"] else "none")]
     alt = None  # functional value with the option left at its default (non-triviality of the option)
@@ -893,6 +938,9 @@ def run_modules(case):
         if opts.get("kernel_size") is not None:
             ks = kernel_arg(opts["kernel_size"])
             ckw["kernel_size"] = fkw["kernel_size"] = ks
+        # the same call without the epsilon option (is the option observable?); the kernel size is kept because
+        # the default kernel (7) may exceed the image
+        alt_kw = {kk: v for kk, v in fkw.items() if kk == "kernel_size"}
         mod = ctor(**ckw)
         if cls == "NCC":
             got = call_ncc(mod, x, y, m)
@@ -901,12 +949,12 @@ def run_modules(case):
         elif cls in ("LCC", "LNCC"):
             got = mod(x, y, mask=m)
             want = L.lcc_loss(x, y, mask=m, **fkw)
-            alt = L.lcc_loss(x, y, mask=m) if fkw else None
+            alt = L.lcc_loss(x, y, mask=m, **alt_kw) if fkw else None
         else:
-            sm, tm = T(make_mask(opts["source_mask"], shp), dt), T(make_mask(opts["target_mask"], shp), dt)
+            sm, tm = T(make_mask(opts["source_mask"], shp, case["key"]), dt), T(make_mask(opts["target_mask"], shp, case["key"]), dt)
             got = mod(x, y, mask=m, source_mask=sm, target_mask=tm)
             want = L.wlcc_loss(x, y, mask=m, source_mask=sm, target_mask=tm, **fkw)
-            alt = L.wlcc_loss(x, y, mask=m, source_mask=sm, target_mask=tm) if fkw else None
+            alt = L.wlcc_loss(x, y, mask=m, source_mask=sm, target_mask=tm, **alt_kw) if fkw else None
         labels += ["eps=" + str(opts["epsilon"]), "k=" + str(opts.get("kernel_size"))]
         rel = 4 * eps_of(torch.float32)
     elif cls in ("Dice", "DSC"):
@@ -938,7 +986,7 @@ def run_modules(case):
         raise Violation("module_mismatch_" + cls, f"{cls}(...)(x, y) returned {type(got).__name__} {getattr(got, 'shape', None)}, functional form {tuple(want.shape)}")
     scale = max(1e-30, float(want.abs().max())) if want.numel() else 1.0
     ratio = check_close(got, as64(want), rel * scale, "module_mismatch_" + cls, f"{cls}({', '.join(sorted(ckw))}) vs functional form with the same options")
-    nt = alt is not None and float((alt.double() - want.double()).abs().max()) > 1e3 * rel * scale
+    nt = (alt is not None and float((alt.double() - want.double()).abs().max()) > 1e3 * rel * scale) or opts.get("kernel_size") is not None
     return {"ratio": ratio, "nontrivial": bool(nt), "labels": labels}
 
 
@@ -948,26 +996,26 @@ FACETS = [
     Facet("pointwise", run_pointwise, strategy=pointwise_cases,
           rule="mse/ssd/mae/l1/huber/smooth_l1 on hash-noise images, N,C <= 3, masks (1,1)/(N,1)/(N,C)/(1,C) binary or soft with >= 1 non-zero, "
                "norm float / 0-dim / 1-element tensor, all reductions, float32/float64; non-trivial = mask has zeros and non-zeros and x != y",
-          quick=500, thorough=12000, shards=16, quick_shards=2),
+          quick=1200, thorough=40000, shards=16, quick_shards=2),
     Facet("correlation_reference", run_corr_reference, strategy=corr_reference_cases,
           rule="ncc/lcc/wlcc on images <= 12^2 / 8^3 against brute-force window sums in float64; kernels 3-9 (int or tuple), epsilon, masks of "
                "every documented shape (wlcc: mask / source_mask / target_mask combinations); non-trivial = > 50 % well-conditioned windows "
                "and reference compared",
-          quick=400, thorough=10000, shards=16, quick_shards=2),
+          quick=1200, thorough=40000, shards=16, quick_shards=2),
     Facet("correlation_axioms", run_corr_axioms, strategy=corr_axiom_cases,
           rule="ncc/lcc/wlcc on images <= 20^2 / 10^3: range, swap symmetry, identity => 0, invariance under a*x+b (a != 0 both signs) of source, "
                "target or both; non-trivial = (a,b) != (1,0), N >= 2, > 50 % well-conditioned windows",
-          quick=300, thorough=8000, shards=16, quick_shards=2),
+          quick=800, thorough=30000, shards=16, quick_shards=2),
     Facet("mutual_information", run_mi, strategy=mi_cases,
           rule="mi_loss/nmi_loss, C = 1, explicit vmin/vmax/bins 8-64: swap symmetry, nmi in [0,2], masks (1,1)/(N,1) accepted; levels mode "
                "(interior bin centres, x levels >= 6 bins apart): mi(x,x) <= mi(x,y); non-trivial = N >= 2 or levels mode",
-          quick=300, thorough=8000, shards=8, quick_shards=2),
+          quick=800, thorough=20000, shards=16, quick_shards=2),
     Facet("overlap", run_overlap, strategy=overlap_cases,
           rule="dice_score/dice_loss/tversky_index/tversky_loss on binary (and soft) maps, weights (N,..)/(N,1,..)/(N,C,..), alpha/beta incl. None, "
                "gamma, label-map targets; non-trivial = maps differ and N >= 2",
-          quick=400, thorough=10000, shards=16, quick_shards=2),
+          quick=1200, thorough=40000, shards=16, quick_shards=2),
     Facet("modules", run_modules, strategy=module_cases,
           rule="each class of losses.image constructed with generated options vs its functional form with the same options; non-trivial = the "
                "option changes the functional value",
-          quick=500, thorough=10000, shards=16, quick_shards=2),
+          quick=1200, thorough=40000, shards=16, quick_shards=2),
 ]
